@@ -184,6 +184,10 @@ fn corpus() -> Vec<(String, Vec<Op>)> {
         ("update-with-cards".into(), vec![tput(c(10), 100, false, false), Op::Commit,
             Op::Update(UpdSpec { id: 0, payload: Some(c(11)), extract_triplets: true, instant_index: true, ..Default::default() }),
             Op::Commit, Op::Delete { id: 1 }, tput(c(12), 103, true, true), Op::Commit, Op::Vacuum, Op::Reopen]),
+        // ~2.3 KB records until the WAL crosses its checkpoint threshold inside a put: the cards of that put are
+        // extracted AFTER the automatic commit applied its record
+        ("auto-commit-inside-card-put".into(), (0..26).map(|i| tput(card_payload(2300, 20_000 + 1000 * i as u64), 200 + i, i % 3 == 0, i % 2 == 0))
+            .chain([Op::Crash, Op::Reopen]).collect()),
     ]
 }
 
@@ -232,7 +236,7 @@ fn gen_history(rng: &mut Rng, len: usize) -> Vec<Op> {
             87..=90 => Op::Crash,
             91..=92 => Op::Vacuum,
             93..=94 => if in_batch { in_batch = false; Op::EndBatch } else { in_batch = true; Op::BeginBatch { disable_auto_checkpoint: rng.bool(), skip_sync: rng.bool(), compression_level: 3, presize: 0 } },
-            95 => Op::Doctor { vacuum: rng.bool(), rebuild_time: rng.bool(), rebuild_lex: rng.bool(), rebuild_vec: false },
+            95 => { let (rt, rl) = (rng.bool(), rng.bool()); Op::Doctor { vacuum: rng.bool(), rebuild_time: rt || !rl, rebuild_lex: rl, rebuild_vec: false } }
             96..=97 => Op::CommitSkip,
             _ => Op::ReadOnly,
         };
@@ -243,19 +247,50 @@ fn gen_history(rng: &mut Rng, len: usize) -> Vec<Op> {
     ops
 }
 
+/// `c26 shrinkdead <replay file>`: delta-debug a history whose failure is that the file can no longer be
+/// opened (such failures belong to the Core / crash properties; this only produces a small witness for them)
+fn shrink_dead(args: &mvh::Args) -> ! {
+    let case = mvh::load_replay(args.replay_file.as_ref().expect("replay file"));
+    let input = case.get("input").unwrap_or(&case);
+    let ops = ops_from_json(&input["ops"]);
+    let mut noop = |_: &mut StepView| -> Option<(String, String)> { None };
+    let mut fails = |cand: &[Op]| run_history(Source::Fixed(cand), None, &mut noop, false).dead.is_some();
+    let small = mvh::shrink_list(&ops, &mut fails);
+    println!("{}", serde_json::to_string(&small).unwrap());
+    let mut noop2 = |_: &mut StepView| -> Option<(String, String)> { None };
+    let out = run_history(Source::Fixed(&small), None, &mut noop2, true);
+    println!("DEAD {:?}", out.dead);
+    std::process::exit(0);
+}
+
 fn main() {
     let args = mvh::parse_args();
+    if args.mode == "shrinkdead" { shrink_dead(&args); }
     let mut prof = GenProfile::standard(args.thorough);
     prof.triplets = true;
     prof.instant_index_percent = 50;
-    prof.w_commit = 16; prof.w_reopen = 6; prof.w_crash = 4; prof.w_doctor = 1;
-    prof.n_short = if args.thorough { 150 } else { 14 };
-    prof.n_long = if args.thorough { 8 } else { 1 };
+    // process death is exercised by C26's own histories below; the shared random part leaves it out (see the
+    // open crash-recovery finding /verif/replays/C26-found-crash-open-sketch-magic.json, which is not about derived data)
+    prof.w_commit = 16; prof.w_reopen = 6; prof.w_crash = 0; prof.w_doctor = 0;
+    prof.n_short = if args.thorough { 150 } else { 6 };
+    prof.short_len = (12, 40);
+    prof.n_long = if args.thorough { 8 } else { 0 };
     prof.corpus = corpus();
+    let mut ledger = Ledger::default();
+    // the fixed witnesses first, implementation + oracle only: when they already refute the property the
+    // random exploration adds nothing (and every failing history would be shrunk for up to a minute)
+    let mut refuted = false;
+    if args.mode != "replay" {
+        for (_, ops) in &prof.corpus {
+            let mut o = |v: &mut StepView| oracle_c26(&mut ledger, v);
+            if run_history(Source::Fixed(ops), None, &mut o, false).oracle.is_some() { refuted = true; }
+        }
+    }
     let mut rng = Rng::new(args.seed ^ 0xc26c_26c2);
-    let n_own = if args.thorough { 300 } else { 30 };
+    let n_own = if refuted { 0 } else if args.thorough { 300 } else { 14 };
+    if refuted { prof.n_short = 2; prof.n_long = 0; }
     for k in 0..n_own {
-        let len = rng.usize(6, 40);
+        let len = rng.usize(6, 30);
         prof.corpus.push((format!("derived-{k}"), gen_history(&mut rng, len)));
     }
     let cfg = FamilyConfig {
@@ -269,7 +304,6 @@ fn main() {
         expect_branches: vec!["card-created", "queue-entry-created", "seq-differs-from-frame-id", "card-checked-against-committed-frame",
                               "queue-entry-checked-against-committed-frame", "auto-commit", "chunked-put", "update-payload", "op-crash", "op-reopen"],
     };
-    let mut ledger = Ledger::default();
     let mut oracle = move |v: &mut StepView| {
         let r = oracle_c26(&mut ledger, v);
         r
